@@ -16,7 +16,10 @@ RULE = ('Hypothesis composite generator of well-typed sequential HiD programs (n
         'stream (output bytes, flags, sleeps) and end state compared with the source-level reference interpreter. '
         'Non-trivial: the reference run made >=1 user call, took >=1 branch and skipped >=1 branch, printed >=8 bytes '
         'and exercised at least one of: compound assignment, array element write, short-circuit skip, overload '
-        'resolution among >1 candidates, call depth >=3. Distinct by hash of (source, argv, word size).')
+        'resolution among >1 candidates, call depth >=3. Distinct by hash of (source, argv, word size). Plus a fixed family of '
+        '*scale* programs that have many of something - locals of every size in one frame, parameters, string constants, functions, '
+        'branches/labels, array elements (literal, global, dynamic), globals of mixed types, recursion depth - with counts on both sides of '
+        '128 and 256, run at word sizes 2 and 3 (thorough: 2,3,4,8) against the reference.')
 ASSUMPTIONS = ['verification Sphinx VM (svm) as calibrated in DESIGN.md 2.1 (floored div/mod)',
                'reference interpreter ref/interp.py reads README.rst + property text',
                'programs containing an out-of-range folded constant (known finding F4) are excluded by construction']
@@ -24,7 +27,49 @@ MIN_NONTRIVIAL = 100
 
 
 def shards(tier):
-    return list(range(16))
+    return list(range(16)) + [('scale', 0), ('scale', 1)]
+
+
+def scale_programs(rnd, tier):
+    """Programs that have *many* of something (the counts straddle 127/128, 255/256 and, for stack words, 32767/ws):
+    locals in one frame, parameters, string constants, functions, labels (branches), array elements, globals, recursion
+    depth.  -> list of (name, source, argv values, stack words)"""
+    out = []
+    counts = [120, 130, 250, 260] if tier == 'quick' else [100, 127, 128, 129, 200, 255, 256, 257, 300, 520]
+    for n in counts:
+        # many int locals in one frame, all live to the end
+        decl = ' '.join('int v%d = x + %d;' % (i, i) for i in range(n))
+        use = ' '.join('s += v%d;' % i for i in range(0, n, 7))
+        out.append(('locals:%d' % n, 'empty @is_you(int x) { %s int s = 0; %s writeln(s); writeln(v%d); writeln(v0); }' % (decl, use, n - 1), [3], 4 * n + 200))
+        # many byte and bool locals (odd frame offsets)
+        decl = ' '.join(("byte b%d = (x + %d) is byte;" % (i, i)) if i % 2 else ('bool c%d = x > %d;' % (i, i % 5)) for i in range(n))
+        out.append(('small_locals:%d' % n, 'empty @is_you(int x) { %s writeln(b%d is int); writeln(c%d); writeln(b1 is int); }' % (decl, n - 1 if (n - 1) % 2 else n - 2, n - 2 if (n - 1) % 2 else n - 1), [3], 4 * n + 200))
+        # many distinct string constants
+        body = ' '.join('write("s%d_%s");' % (i, 'x' * (i % 5)) for i in range(n))
+        out.append(('strings:%d' % n, 'empty @is_you() { %s writeln(""); }' % body, [], 400))
+        # many functions, called in a chain and directly
+        funcs = ' '.join('int f%d(int a) { return %s; }' % (i, 'a + 1' if i == 0 else 'f%d(a) + 1' % (i - 1)) for i in range(n))
+        out.append(('functions:%d' % n, '%s empty @is_you(int x) { writeln(f%d(x)); writeln(f0(x)); writeln(f%d(x)); }' % (funcs, n - 1, n // 2), [5], 6 * n + 300))
+        # many branches / labels
+        arms = ' else '.join('if (x == %d) { write(%d); }' % (i, i * 2) for i in range(n))
+        out.append(('branches:%d' % n, 'empty @is_you(int x) { %s else { write(-1); } writeln(""); for (int i = 0; i < 3; i += 1) { if (i == x) { continue; } write(i); } }' % arms,
+                    [n - 1], 400))
+        # long array literal, dynamic array of the same length, element access at both ends
+        lit_ = ', '.join(str((i * 7) % 1000) for i in range(n))
+        out.append(('elements:%d' % n, 'int[] G = [%s]; empty @is_you(int x) { int[] a = [x, %s]; int d[x]; d[0] = 1; d[x - 1] = 2; writeln(a[%d]); writeln(a[x]); writeln(G[x - 1]); writeln(d[x - 1] + d[0]); writeln(a.length + d.length + G.length); }' % (lit_, lit_, n),
+                    [n], 4 * n + 300))
+        # many globals of mixed types
+        globs = ' '.join(['int g%d = %d;' % (i, i), "byte g%d = '\\x%02x';" % (i, i % 256), 'bool g%d = %s;' % (i, 'true' if i % 3 else 'false'), 'string g%d = "g%d";' % (i, i)][i % 4] for i in range(n))
+        out.append(('globals:%d' % n, '%s empty @is_you() { g0 = g0 + g%d; writeln(g0); writeln(g%d is int); writeln(g%d); writeln(g%d); }' % (
+            globs, (n - 1) // 4 * 4, (n - 1) // 4 * 4 + 1 if (n - 1) // 4 * 4 + 1 < n else 1, (n - 1) // 4 * 4 + 2 if (n - 1) // 4 * 4 + 2 < n else 2, 3), [], 400))
+        # many parameters
+        k = min(n, 40)
+        out.append(('params:%d' % k, 'int f(%s) { return p0 + p%d * 2 + p%d; } empty @is_you(int x) { writeln(f(%s)); }' % (
+            ', '.join('int p%d' % i for i in range(k)), k - 1, k // 2, ', '.join('x + %d' % i for i in range(k))), [2], 400 + 4 * k))
+        # recursion depth
+        out.append(('recursion:%d' % n, 'int down(int k) { int[] t = [k, 1]; if (k <= 0) { return 0; } return down(k - 1) + t[1]; } empty @is_you(int x) { writeln(down(x)); }',
+                    [n], 12 * n + 300))
+    return out
 
 
 def nontrivial(ref):
@@ -64,6 +109,31 @@ def check_case(stats, case, tight):
 
 def run_shard(k, seed, tier):
     stats = Stats()
+    if isinstance(k, tuple):
+        import random
+        from harness.progcase import check_source_program
+        import sys
+        import ref.interp as RI
+        sys.setrecursionlimit(60000)
+        RI.MAX_FRAMES[0] = 1200
+        progs = scale_programs(random.Random(seed), tier)
+        for pi, (name, src, vals, S) in enumerate(progs):
+            if pi % 2 != k[1]:
+                continue
+            for ws in ((2, 3) if tier == 'quick' else (2, 3, 4, 8)):
+                try:
+                    v = check_source_program(src, vals, ws, S=S, vm_budget=20_000_000, ref_budget=5_000_000, ref_stack=10 ** 7)
+                except Discard as d:
+                    stats.discard(d.why)
+                    continue
+                stats.evaluated()
+                stats.cls('scale_programs')
+                stats.nt('scale:%s:%d' % (name, ws))
+                if v.status != 'agree':
+                    stats.violation({'kind': 'scale', 'value': [name, ws], 'message': 'scale program %s ws=%d S=%d argv=%r: %s\n%s' % (name, ws, S, vals, v.msg, src[:1500]),
+                                     'signature': 'scale:' + name.split(':')[0] + ':' + str(v.sig)})
+        stats.sample({'kind': 'scale', 'programs': sorted({p[0].split(':')[0] for p in progs})})
+        return stats
     n = 400 if tier == 'quick' else 6000
     strat = st.tuples(programs(features=SEQ_FEATURES), st.integers(0, 3))
 
@@ -83,6 +153,19 @@ def run_shard(k, seed, tier):
 
 
 def replay(case):
+    if case.get('kind') == 'scale':
+        import random
+        from harness.progcase import check_source_program
+        name, ws = case['value']
+        for tier in ('quick', 'thorough'):
+            for n2, src, vals, S in scale_programs(random.Random(1), tier):
+                if n2 == name:
+                    try:
+                        v = check_source_program(src, vals, ws, S=S, vm_budget=20_000_000, ref_budget=5_000_000, ref_stack=10 ** 7)
+                    except Discard:
+                        return None
+                    return None if v.status == 'agree' else v.msg
+        return None
     prog, vals, ws = case_from_json(case)
     try:
         r = check_case(Stats(), (prog, vals, ws), case.get('tight', False))
